@@ -421,3 +421,11 @@ def fx_dropwrite(fx):
     finally:
         order.use_facts(prev)
     return _fires(c, "dropwrite::BadFile") and not _fires(c, "dropwrite::OkFile")
+
+
+def fx_region(fx):
+    from rules import refusal
+    c = _ctx()
+    for nm in ("ok_ptr_to_offset", "bad_ptr_to_offset"):
+        refusal.region_upper_bound(c, fx, Fn(fx.raw("region::Pool::" + nm)), 2, r"memory_size$")
+    return _fires(c, "Pool::bad_ptr_to_offset") and not _fires(c, "Pool::ok_ptr_to_offset")
